@@ -95,6 +95,11 @@ CHECKS = {
     text="TLC checks Transparent on Hist.tla for the mechanisms as implemented (complete cache keys, names that cover the dataset contents, failures store nothing) and finds a counterexample when any one is switched off. Behaviours of the same module (Build / Plan / Observe / Discard+gc / Churn / FailPlan / RewriteDask / RewriteOutside over 16 queries, LRU capacity 10) are replayed, each in its own process, over pools of concrete twin queries that differ in exactly one cache-key field (sort direction, npartitions, upsample, frame, partition selection, partition size, parquet columns / filters / statistics use); every observation of a handle (and of a held optimized plan) - name, plan, schema, npartitions, divisions, result, sort-key order, partition lengths - is validated by TLC against the same query built alone in a process forked from a pristine zygote. The lru_get / lru_set events of every cache object are validated against the LRU discipline of the model.",
     note="Trusted: TLC; fork(); the hooks of dask_expr/_verif.py (cache / lru / instance events). A handle on the dataset built before a rewrite is not observed (the property speaks of re-reading).",
     design="5.8 C15"),
+ "C18": dict(
+    technique="TLA+ model of the parquet case space and of the planner's reader rules (Parquet.tla: push-down soundness under two- vs three-valued null semantics, divisions from file statistics, fused-read divisions) model-checked by TLC incl. the unsound rules of the pinned commit as negative controls; every TLC-emitted case realized with real files and both reader implementations; ParquetTrace validated by TLC with the expected result computed by TLC from the written table",
+    text="TLC evaluates in every state of Parquet.tla (a dataset layout x reader configuration x query) the rules the planner applies: a predicate moved into the reader keeps exactly the rows the in-memory filter keeps for every row over {NULL,0..3}^2; divisions derived from per-file min/max statistics cover what the files hold in hand-out order; fusing files keeps the outer divisions. The rules of the pinned commit (three-valued != pushed, sorted-pairs divisions, last fused division = partition id) are refuted by TLC; the repaired ones hold. The emitted cases - every predicate tree up to two connectives incl. non-pushable kinds, every sequence of 1..3 file ranges incl. unsorted / touching / overlapping, 1-2 row groups, both readers, calculate_divisions, split_row_groups, user filters, projections, partition selections, len / column terminals, pandas and dask writers, named / unnamed index - are written, read back and queried; TLC validates the round trip, every optimized execution against the unoptimized one AND against the expectation it computes itself from the written table (Rel!Keep), the plan's divisions against the labels each partition holds, divisions that must come back, and the overwrite guard.",
+    note="Trusted: TLC; pandas / pyarrow as file writers; tmp files. The arrow reader's row order without divisions is the directory order: compared as bags.",
+    design="5.9 C18"),
 }
 
 def main():
